@@ -147,6 +147,10 @@ struct Outcome {
 }
 
 fn run_cli(cfg: &Cfg, args: &[String], dir: &Path, timeout_s: u64) -> (Option<i32>, Vec<u8>, String, bool) {
+    run_cli_env(cfg, args, dir, timeout_s, &[])
+}
+
+fn run_cli_env(cfg: &Cfg, args: &[String], dir: &Path, timeout_s: u64, env: &[(&str, &str)]) -> (Option<i32>, Vec<u8>, String, bool) {
     let mut child = Command::new(&cfg.cli)
         .args(args)
         .current_dir(dir)
@@ -154,6 +158,7 @@ fn run_cli(cfg: &Cfg, args: &[String], dir: &Path, timeout_s: u64) -> (Option<i3
         .env("PATH", "/usr/bin:/bin")
         .env("HOME", dir)
         .env("NO_PROXY", "*")
+        .envs(env.iter().cloned())
         .stdin(Stdio::null())
         .stdout(Stdio::piped())
         .stderr(Stdio::piped())
@@ -212,7 +217,12 @@ fn execute(plan: &Value, w: &World, cfg: &Cfg, slot: usize) -> Outcome {
     let headers: Vec<String> = plan["headers"].as_array().map(|a| a.iter().filter_map(|h| h.as_str().map(|s| s.to_string())).collect()).unwrap_or_default();
     let refused = headers.iter().any(|h| plan::header_refused(h));
     // pre-existing output
-    let out_path = dir.join("out.json");
+    std::fs::create_dir_all(dir.join("sub")).unwrap();
+    let (out_path, out_arg) = match plan["output_form"].as_str() {
+        Some("rel") => (dir.join("out.json"), "out.json".to_string()),
+        Some("rel-sub") => (dir.join("sub").join("out.json"), "sub/../sub/out.json".to_string()),
+        _ => (dir.join("out.json"), dir.join("out.json").display().to_string()),
+    };
     let pre: Option<Vec<u8>> = match plan["output"].as_str() {
         Some("text") => Some(OLD_TEXT.to_vec()),
         // longer than anything the endpoint serves: leftovers show if the file is not truncated
@@ -246,7 +256,7 @@ fn execute(plan: &Value, w: &World, cfg: &Cfg, slot: usize) -> Outcome {
     }
     if !plan["output"].is_null() {
         args.push("--output".into());
-        args.push(out_path.display().to_string());
+        args.push(out_arg.clone());
     }
     if let Some(t) = plan["authorization"].as_str() {
         args.push(format!("--authorization={}", t));
@@ -257,7 +267,13 @@ fn execute(plan: &Value, w: &World, cfg: &Cfg, slot: usize) -> Outcome {
     if !plan["url_first"].as_bool().unwrap_or(true) {
         args.push(url.clone());
     }
-    let (code, stdout, stderr, timed_out) = run_cli(cfg, &args, &dir, 90);
+    let env: Vec<(&str, &str)> = match plan["env"].as_str() {
+        Some("rust-log-trace") => vec![("RUST_LOG", "trace")],
+        Some("rust-log-cli-info") => vec![("RUST_LOG", "graphql_client_cli=info,warn")],
+        Some("locale-tz") => vec![("LANG", "tr_TR.UTF-8"), ("LC_ALL", "tr_TR.UTF-8"), ("TZ", "Pacific/Kiritimati"), ("TERM", "xterm-256color"), ("COLUMNS", "20")],
+        _ => vec![],
+    };
+    let (code, stdout, stderr, timed_out) = run_cli_env(cfg, &args, &dir, 90, &env);
     let seen = endpoint.finish();
     let after: Option<Vec<u8>> = std::fs::read(&out_path).ok();
 
